@@ -23,8 +23,13 @@ def sh(cmd, cwd=wt, timeout=3600, extra=None):
 meta = json.load(open(os.path.join(wt, "meta.json")))
 demo_cmd, test_cmd = meta["demo_cmd"], meta.get("test_cmd", "")
 res = {}
-rc, out = sh("git diff -- . ':!patch.diff' ':!meta.json'")
-patch = out
+# patch.diff is the truth: normalise the scratch tree to "pristine + patch" (never use git stash: refs/stash is
+# shared by all worktrees of /repo)
+patch = open(os.path.join(wt, "patch.diff")).read()
+shutil.copy(os.path.join(wt, "patch.diff"), "/tmp/.confirm_seed.patch")
+sh("git checkout -- .")
+rc, out = sh("git apply /tmp/.confirm_seed.patch")
+res["patch_applies"] = rc == 0
 rc, out = sh("git ls-files --others --exclude-standard")
 demos = [f for f in out.split() if f not in ("patch.diff", "meta.json")]
 rc, out = sh("go1.26 build ./...")
@@ -32,11 +37,11 @@ res["build_with_patch"] = rc == 0
 rc, out = sh(demo_cmd); res["demo_with_patch_fails"] = rc != 0; res["demo_with_patch_tail"] = out[-600:]
 if test_cmd:
     rc, out = sh(test_cmd); res["tests_with_patch_pass"] = rc == 0; res["tests_tail"] = out[-400:]
-sh("git stash -q")
+sh("git apply -R /tmp/.confirm_seed.patch")
 try:
     rc, out = sh(demo_cmd); res["demo_without_patch_passes"] = rc == 0
 finally:
-    sh("git stash pop -q")
+    sh("git apply /tmp/.confirm_seed.patch")
 t0 = time.time()
 rc, out = sh(f"./check {pid}", cwd=V, extra={"VERIF_REPO": wt})
 res["check_exit"] = rc
@@ -50,7 +55,7 @@ for f in demos:
     shutil.copy(os.path.join(wt, f), os.path.join(dst, os.path.basename(f)))
 meta["demo_files"] = demos
 meta["confirmation"] = res
-confirmed = res["build_with_patch"] and res["demo_with_patch_fails"] and res.get("demo_without_patch_passes") and res.get("tests_with_patch_pass", True)
+confirmed = res["patch_applies"] and res["build_with_patch"] and res["demo_with_patch_fails"] and res.get("demo_without_patch_passes") and res.get("tests_with_patch_pass", True)
 meta["confirmed"] = bool(confirmed)
 meta["detected"] = rc == 1 and bool(res["check_violation_lines"])
 json.dump(meta, open(os.path.join(dst, "meta.json"), "w"), indent=1)
